@@ -63,6 +63,11 @@ class Reader:
     def p_cmp(self):
         e = self.p_add()
         tok = self.peek()
+        if tok == 'NOT' and self.i + 1 < len(self.t) and self.t[self.i + 1] in ('IN', 'LIKE'):
+            # dialects whose lexer has no NOT_IN / NOT_LIKE token write the negated predicate with two tokens
+            self.take()
+            tok = 'NOT_' + self.peek()
+            self.t[self.i] = tok
         if tok in CMP:
             self.take()
             e = (CMP[tok], e, self.p_add())
